@@ -64,6 +64,8 @@ def instance(schema: str, n: int):
         return {"x": n, "s": "w", "b": 2, "c": "c%d" % n}
     if schema == "vt.dd":
         return {"x": n, "d": 4}
+    if schema == "vt.a0":
+        return {"x": n, "e": 5}
     if schema == "vt.xx":
         return {"q": n}
     if schema == "core.file":
@@ -142,6 +144,12 @@ class Cont:
                         mc.copy(op[1], op[2])
                 elif k == "move":
                     mc.move(op[1], op[2])
+                elif k == "gcopy":  # [gcopy, group, srckey, dstkey]: called on a sub-group, both paths relative to it
+                    mc[op[1]].copy(op[2], op[3])
+                elif k == "gmove":
+                    mc[op[1]].move(op[2], op[3])
+                elif k == "mkdsv":  # [mkdsv, path, kind]
+                    mc[op[1]] = h5ops.special_value(op[2])
                 elif k == "R":
                     self.reopen()
                 elif k == "B":
@@ -240,6 +248,12 @@ class CModel:
                     if p == s or p.startswith(s + "/"):
                         del self.meta[(p, sn)]
                         self.meta[(d + p[len(s) :], sn)] = v
+            elif k in ("gcopy", "gmove"):
+                g = op[1].rstrip("/")
+                s_, d_ = f"{g}/{op[2]}", f"{g}/{op[3]}"
+                return self.apply(["copy" if k == "gcopy" else "move", s_, d_, False]) if (self.__setattr__("n", self.n - 1) or True) else None
+            elif k == "mkdsv":
+                t[op[1]] = h5ops.special_value(op[2])
             elif k in ("R", "B"):
                 pass
             else:
